@@ -56,10 +56,11 @@ structure Inv (P n : Nat) (hist : List K) (s : WMA K) : Prop where
 
 theorem new_spec {P n : Nat} (v : K) (hn0 : 0 < n) (hn : n ≤ P - 1) :
     ∃ s, WMA.new P n v = .ok s ∧ Inv P n (history n v []) s := by
+  have hnP : n ≠ P := by omega
   obtain ⟨w, hw, ht⟩ := Tracks.new (P := P) v hn
   refine ⟨{ invert_sum := 1 / ((n * (n + 1) / 2 : Nat) : K), float_length := (n : K), total := (-v) * (n : K),
             numerator := v * ((n * (n + 1) / 2 : Nat) : K), window := w }, ?_, ht, rfl, rfl, ?_, ?_⟩
-  · simp [WMA.new, Nat.pos_iff_ne_zero.mp hn0, winNew, hw, Res.ofExcept, Res.bind]
+  · simp [WMA.new, Nat.pos_iff_ne_zero.mp hn0, hnP, winNew, hw, Res.ofExcept, Res.bind]
   · simp [lastN_history_nil, sum_replicate_field]; ring
   · simp only [lastN_history_nil, rampSum_replicate]; ring
 
